@@ -22,6 +22,7 @@ DEq(a, b) ==
        /\ CASE a.t \in {"int", "bool", "str"} -> a.v = b.v
             [] a.t \in {"list", "tuple"} -> Len(a.e) = Len(b.e) /\ \A i \in 1..Len(a.e) : DEq(a.e[i], b.e[i])
             [] a.t = "dict" -> Len(a.e) = Len(b.e) /\ \A i \in 1..Len(a.e) : DEq(a.e[i][1], b.e[i][1]) /\ DEq(a.e[i][2], b.e[i][2])
+            [] a.t = "obj" -> Len(a.e) = Len(b.e) /\ \A i \in 1..Len(a.e) : a.e[i][1] = b.e[i][1] /\ DEq(a.e[i][2], b.e[i][2])
             [] a.t \in {"fn", "builtin"} -> a.name = b.name
             [] a.t = "range" -> a.len = b.len
             [] OTHER -> TRUE
